@@ -1,4 +1,5 @@
 PROPS = {}
+MANIFEST_TEXT = {}
 
 
 def check(prop, tier, seed, work, replay, t0):
